@@ -29,8 +29,12 @@
 #ifndef GSTAB
 #define GSTAB 0
 #endif
-#ifndef EDGECMT
-#define EDGECMT 1        /* 0: no comment as first or last token between "<" and ">" (plan.py says why) */
+/* KF_EDGE_COMMENT (set by ./check from known-findings.txt): the recorded finding - a comment as FIRST or LAST token between
+ * "<" and ">" defeats rwroute()/rwplus() - is assumed away, every other derivation is still decided */
+#ifdef KF_EDGE_COMMENT
+#define EDGECMT 0
+#else
+#define EDGECMT 1
 #endif
 #include "grammar822.h"
 
@@ -48,6 +52,10 @@ void vmain(void)
   unsigned int p, n = 0, lo, hi, i, j, nc_in = 0;
   int r, edge = 0;
   sym_inputs();
+#ifdef S_ANG      /* the skeleton of the address is concrete per grid point (with a symbolic skeleton no query closes: plan.py);
+                     word kinds, the plus flag, all contents and the comment positions stay symbolic */
+  m_ang[0] = S_ANG; m_nr[0] = S_NR; m_nl[0] = S_NL; m_nd[0] = S_ND;
+#endif
   grammar_assumptions();
   ASSUME(m_np[0] == 0);                        /* the phrase is not part of the address */
 
